@@ -57,6 +57,15 @@ def build_operand(u, shape):
     return [cm.cast(m, d) for m, d in zip(fm, u.get("fdtypes") or [None] * len(fm))], (fm, w)
 
 
+def _nocopy_operand(case, U):
+    """(round 4) a Kruskal operand that holds the caller's own read-only arrays (built with copy=False): the kernel
+    must apply the weights without writing into them"""
+    if not isinstance(U, ttb.ktensor) or not (case.get("pres") or {}).get("U_nocopy"):
+        return U
+    fm = [cm._readonly_F(f) for f in U.factor_matrices]
+    return ttb.ktensor(fm, cm._readonly_F(U.weights), copy=False)
+
+
 def operand_exact(u):
     return u.get("vkind", "int") == "int" and cm.ST.kruskal_state_exact(u.get("state"))
 
@@ -106,11 +115,17 @@ def mttkrp_body(ctx, case):
     _labels(ctx, h, u, n)
     ctx.label(*cm.object_labels(X))
     ctx.nt = len(set(shape)) >= 2 and N >= 3 and u["rank"] >= 2 and bool(np.any(expect != 0))
+    narg = np.int64(n) if case.get("n_numpy") else int(n)
+    if case.get("pres"):  # (round 4) the same request as another caller would type it
+        U, narg = cm.present_seq(case, U), cm.present_dims(case, int(n))
+        U = _nocopy_operand(case, U)
+        ctx.label(*cm.pres_labels(case))
     with ctx.sut(f"{kind}.mttkrp"):
-        V = X.mttkrp(U, np.int64(n) if case.get("n_numpy") else int(n))
+        V = X.mttkrp(U, narg)
     ctx.require(isinstance(V, np.ndarray), "mttkrp-returns-ndarray", type(V).__name__)
     nterms = cm.terms(h) * ref.prod(shape) * (N + 2)
-    cm.compare(ctx, V, expect, bound, nterms, _exact(h, u), "mttkrp-value", f"n={n} U={u['kind']}")
+    cm.compare(ctx, V, expect, bound, cm.pres_nterms(case, nterms), cm.pres_exact(case, _exact(h, u)), "mttkrp-value",
+               f"n={n} U={u['kind']}")
 
 
 for _k, (_q, _t) in {"tensor": (1000, 10000), "sptensor": (800, 6000), "ktensor": (800, 8000),
@@ -176,6 +191,9 @@ def mttkrps_tensor(ctx, case):
     _labels(ctx, h, u, 0)
     ctx.label(_split_label(shape), *cm.object_labels(X))
     ctx.nt = len(set(shape)) >= 2 and N >= 3 and u["rank"] >= 2
+    if case.get("pres"):
+        U = _nocopy_operand(case, cm.present_seq(case, U))
+        ctx.label(*cm.pres_labels(case))
     with ctx.sut("tensor.mttkrps"):
         Vs = X.mttkrps(U)
     ctx.require(isinstance(Vs, (list, tuple)) and len(Vs) == N, "mttkrps-returns-one-per-mode",
@@ -184,7 +202,8 @@ def mttkrps_tensor(ctx, case):
     for n in range(N):
         expect, bound = _expect(h, params, n)
         ctx.require(isinstance(Vs[n], np.ndarray), "mttkrps-entry-ndarray", type(Vs[n]).__name__)
-        cm.compare(ctx, Vs[n], expect, bound, nterms, _exact(h, u), "mttkrps-value", f"n={n} U={u['kind']}")
+        cm.compare(ctx, Vs[n], expect, bound, cm.pres_nterms(case, nterms), cm.pres_exact(case, _exact(h, u)),
+                   "mttkrps-value", f"n={n} U={u['kind']}")
 
 
 def _enum_mttkrps(tier):
